@@ -10,6 +10,7 @@
      RP dx dy dz rx ry rz              Array3DRepeater over [-2, 2r+2)^3
      SH dx dy dz sx sy sz | SB dx dy dz lx ly lz hx hy hz | AC dx dy dz seed | MS dx dy dzs n seed
      VR dx dy dz seed bx by bz ex ey ez   getValueRange
+     VA kind dx dy dz seed p0..p5 bx by bz ex ey ez   getValueRange through an adaptor + its own get over the region
      BG dx dy dz x y z v idx           one set/get in a >2^32-cell byte array (lazily mapped memory) *)
 let ios = int_of_string
 let zi = z_of_int
@@ -132,7 +133,7 @@ let () =
       | ["SH"; dx; dy; dz; sx; sy; sz] ->
         let d = (ios dx, ios dy, ios dz) in let (dx, dy, dz) = d in
         let base = as_arr (filled d (fun i -> 1 + i)) in
-        show_arr (shifted base (v3 (ios sx, ios sy, ios sz))) (box3 (-1, dx + 1) (-1, dy + 1) (-1, dz + 1)) true
+        show_arr (shifted base (v3 (ios sx, ios sy, ios sz))) (box3 (-2, dx + 2) (-2, dy + 2) (-2, dz + 2)) true
       | ["RP"; dx; dy; dz; rx; ry; rz] ->
         let d = (ios dx, ios dy, ios dz) and (rx, ry, rz) = (ios rx, ios ry, ios rz) in
         let base = as_arr (filled d (fun i -> 1 + i)) in
@@ -142,11 +143,11 @@ let () =
         let lo = (ios lx, ios ly, ios lz) and hi = (ios hx, ios hy, ios hz) in
         let base = as_arr (filled d (fun i -> 1 + i)) in
         let (a, b, c) = lo and (p, q, r) = hi in
-        show_arr (subbox base (v3 lo) (v3 hi)) (box3 (-1, p - a + 1) (-1, q - b + 1) (-1, r - c + 1)) true
+        show_arr (subbox base (v3 lo) (v3 hi)) (box3 (-2, p - a + 2) (-2, q - b + 2) (-2, r - c + 2)) true
       | ["AC"; dx; dy; dz; seed] ->
         let d = (ios dx, ios dy, ios dz) in let (dx, dy, dz) = d in let seed = ios seed in
         let base = as_arr (filled d (fun i -> value seed i * 37 - 1000)) in
-        let ws = box3 (0, dx) (0, dy) (0, dz) in
+        let ws = box3 (-2, dx + 2) (-2, dy + 2) (-2, dz + 2) in
         let af = accessor idZ base and ab = accessor (fun v -> Z.modulo v (zi 256)) base in
         Printf.sprintf "S %s N %s GF %s GB %s" (show_v3 af.a_dims) (zs af.a_num)
           (cat (List.map (fun w -> zs (af.a_get (v3 w))) ws)) (cat (List.map (fun w -> zs (ab.a_get (v3 w))) ws))
@@ -160,6 +161,24 @@ let () =
         let a = as_arr (filled d (value seed)) in
         (match value_range a (v3 (ios bx, ios by, ios bz)) (v3 (ios ex, ios ey, ios ez)) with
          | None -> "empty" | Some (lo, hi) -> zs lo ^ " " ^ zs hi)
+      | ["VA"; kind; dx; dy; dz; seed; p0; p1; p2; p3; p4; p5; bx; by; bz; ex; ey; ez] ->
+        let d = (ios dx, ios dy, ios dz) and seed = ios seed in
+        let p = Array.map ios [| p0; p1; p2; p3; p4; p5 |] in
+        let cell s i = value s i * 37 - 100 in
+        let base = as_arr (filled d (cell seed)) in
+        let a = match kind with
+          | "AB" -> accessor (fun v -> Z.modulo v (zi 256)) base
+          | "AS" -> accessor (fun v -> Z.sub (Z.modulo (Z.add v (zi 128)) (zi 256)) (zi 128)) base
+          | "AI" -> accessor idZ base
+          | "AF" -> accessor (fun v -> Z.quot v (zi 4)) base          (* float cell = v / 4.0f, converted to int: truncation *)
+          | "SH" -> shifted base (v3 (p.(0), p.(1), p.(2)))
+          | "SB" -> subbox base (v3 (p.(0), p.(1), p.(2))) (v3 (p.(3), p.(4), p.(5)))
+          | "RP" -> repeater base (v3 (p.(0), p.(1), p.(2)))
+          | "MS" -> let sl = List.map (fun k -> as_arr (filled d (cell (seed + k)))) (range 0 p.(0)) in multislice (List.hd sl) (List.tl sl)
+          | _ -> failwith "bad kind" in
+        let b = v3 (ios bx, ios by, ios bz) and e = v3 (ios ex, ios ey, ios ez) in
+        (match value_range a b e with None -> "R empty" | Some (lo, hi) -> "R " ^ zs lo ^ " " ^ zs hi)
+        ^ " G " ^ dash (cat (List.map (fun c -> zs (a.a_get c)) (for_each b e)))
       | ["BG"; dx; dy; dz; x; y; z; v; idx] ->
         let c = v3 (ios x, ios y, ios z) in
         let a = actual_set (actual_new (v3 (ios dx, ios dy, ios dz)) Z0) c (zi (ios v)) in
